@@ -146,7 +146,10 @@ def canon_result(x, depth=0):
         x = np.ma.filled(x.astype(float), np.nan) \
             if x.dtype.kind in "fiub" else np.asarray(x)
     if isinstance(x, np.ndarray):
-        return x
+        # a snapshot, not the library's own array: a later call that writes
+        # into the same buffer (a shared scratch array, a memoised result
+        # edited in place) must not change what was observed here
+        return x.copy()
     if isinstance(x, np.generic):
         return x.item()
     if isinstance(x, dict):
